@@ -27,6 +27,13 @@ CHECKS['C02'] = dict(
     design_ref='DESIGN.md section 3 C02',
     note='dict backend / asyncio subsystem; <= 3 sessions; depth bound; slots whose flags the server never reported are not compared',
     technique='explicit-state model checking of the implementation: BFS over command interleavings, convergence oracle at every state')
+CHECKS['C17'] = dict(
+    engine='E5 explicit-state BFS over vf/checks/c17.py',
+    category='model_checking',
+    text='Exhaustive BFS over all histories (depth 3 quick / 4 thorough with 2 sessions, depth 2/3 with 3 sessions) of SELECT/EXAMINE/SELECT-other/CLOSE/relogin/NOOP/FETCH/STATUS/STORE(+-=\\Recent)/SEARCH RECENT/APPEND(with and without a \\Recent flag)/COPY/MOVE per session plus a non-selecting delivery agent and the weak-set iteration order as an explicit choice, on the real dict backend. A reference recency model classifies each message as pending (arrived while no read-write selection existed) or assignable; every \\Recent sighting (solicited or unsolicited FETCH, SEARCH RECENT) is attributed to a (session, selection epoch); oracles: at most one read-write selection ever shows a message \\Recent, read-only selections never consume it, the first read-write SELECT shows all pending ones, SELECT/untagged RECENT counts equal what FETCH shows, and a brand-new read-write session (on a discarded copy of every state) sees \\Recent exactly on the still-pending messages (never stored, not settable by STORE/APPEND/COPY).',
+    design_ref='DESIGN.md section 3 C17',
+    note='dict backend only in this check; <= 3 sessions; which of several live read-write selections receives \\Recent is left open; STATUS (RECENT) of the selected mailbox is not compared (not in the property statement)',
+    technique='explicit-state model checking of the implementation with a reference recency model')
 NA = {}
 
 def main():
